@@ -34,6 +34,8 @@ type c16Scenario struct {
 	// SlowBody: the members' readers have no data at hand: Read blocks until the reader is closed or
 	// its member context is cancelled (a network body). The caller does not read in these scenarios.
 	SlowBody bool `json:"slow_body,omitempty"`
+	// Partial: the caller reads one byte and closes the reader without having seen the end of the stream
+	Partial bool `json:"caller_stops_reading_early,omitempty"`
 	// Caller: "" = a context the caller can cancel; "background" = context.Background(); "value" = a value
 	// context on top of it: contexts that can never be cancelled by the caller (Done() == nil)
 	Caller   string  `json:"caller_context,omitempty"`
@@ -81,6 +83,10 @@ func (r *c16Reader) Read(p []byte) (int, error) {
 	return 0, io.EOF
 }
 func (r *c16Reader) Close() error {
+	if r.st.closingChosen && r.st.resultMember == r.member && r.ctx.Err() != nil && !r.st.callerCancelled {
+		// the member's own Close still runs on behalf of the call: its context is live until Close has returned
+		r.st.problem("chosen-context-cancelled-before-the-member-reader-was-closed", "the member's Close found its context already cancelled although the caller had not cancelled")
+	}
 	if r.closed == 0 && r.closedCh != nil {
 		vsync.Close(r.closedCh)
 	}
@@ -106,6 +112,7 @@ type c16State struct {
 	resultOK        bool
 	resultMember    int
 	done            bool
+	closingChosen   bool // the caller is closing the reader it was given
 }
 
 func (st *c16State) log(s string) { st.logs = append(st.logs, s) }
@@ -271,14 +278,16 @@ func (st *c16State) body(s *vsched.Sched) {
 			// ... and reads it to its end (or to its error): the reader is still open afterwards
 			buf := make([]byte, 8)
 			for i := 0; i < 4 && !sc.SlowBody; i++ {
-				if _, rerr := rd.Read(buf); rerr != nil {
+				if _, rerr := rd.Read(buf); rerr != nil || sc.Partial {
 					break
 				}
 			}
 			if ctx.Err() == nil && chosen.Err() != nil {
 				st.problem("chosen-context-cancelled-after-reading-before-close", "context of the chosen member is cancelled once the stream has been read to its end, although the returned reader is still open")
 			}
+			st.closingChosen = true
 			rd.Close()
+			st.closingChosen = false
 			if st.readers[m].closed == 0 {
 				st.problem("close-not-forwarded", "Close of the returned reader did not close the member's reader")
 			}
@@ -359,6 +368,11 @@ func c16Scenarios(thorough bool) []c16Scenario {
 					}
 					out = append(out, sc)
 					if strings.HasPrefix(e, "Get") {
+						if strings.HasSuffix(a, "S") || strings.HasSuffix(b, "S") {
+							sp := sc
+							sp.Partial = true
+							out = append(out, sp)
+						}
 						sc.CloseErr = true
 						out = append(out, sc)
 						if strings.HasSuffix(a, "S") && strings.HasSuffix(b, "S") {
